@@ -525,25 +525,27 @@ def rule_rsv1(ctx):
     sm = wsp.methods["sendMessage"]
     ctx.analysed(sm)
     g, mf, res = an.get(sm)
-    # the compression decision: the local that is set True on one side and False on the other of the extension test (whatever it is called)
+    # the compression decision: the local that is bound to one constant under the extension test and to another on the other side -- True / False,
+    # or the RSV value 4 / 0 directly -- whatever it is called
     flags = {}
+    PM_ON = ("is", "self._perMessageCompress", ("c", None), False)
+    DNC_OFF = ("truth", "doNotCompress", None, False)
     for n in g.stmt_nodes():
         if n.kind == "stmt" and isinstance(n.ast, ast.Assign) and len(n.ast.targets) == 1 and isinstance(n.ast.targets[0], ast.Name) and isinstance(n.ast.value, ast.Constant) \
-                and isinstance(n.ast.value.value, bool):
-            flags.setdefault(n.ast.targets[0].id, set()).add(n.ast.value.value)
-    both = [k_ for k_, v_ in flags.items() if v_ == {True, False} and any(
-        ("is", "self._perMessageCompress", ("c", None), False) in (mf.at(n) or ()) for n in g.stmt_nodes() if n.kind == "stmt" and isinstance(n.ast, ast.Assign)
-        and norm.text(n.ast.targets[0]) == k_)]
+                and isinstance(n.ast.value.value, (bool, int)):
+            flags.setdefault(n.ast.targets[0].id, []).append((n.ast.value.value, n))
+    both = [k_ for k_, v_ in flags.items() if len({repr(x_) for x_, _ in v_}) == 2 and any(PM_ON in (mf.at(n_) or ()) for _, n_ in v_)]
     SC = both[0] if len(both) == 1 else "sendCompressed"
     sets = [n for n in g.stmt_nodes() if n.kind == "stmt" and isinstance(n.ast, ast.Assign) and norm.text(n.ast.targets[0]) == SC]
-    ok = len(sets) == 2
+    on_vals = {repr(n.ast.value.value) for n in sets if isinstance(n.ast.value, ast.Constant) and PM_ON in (mf.at(n) or ()) and DNC_OFF in (mf.at(n) or ())}
+    ok = len(sets) == 2 and len(on_vals) == 1 and on_vals <= {"True", "4"}
     for n in sets:
-        t = norm.text(n.ast.value) == "True"
+        t = isinstance(n.ast.value, ast.Constant) and repr(n.ast.value.value) in on_vals
         f = mf.at(n)
         if t:
-            ok = ok and ("is", "self._perMessageCompress", ("c", None), False) in f and ("truth", "doNotCompress", None, False) in f
+            ok = ok and PM_ON in f and DNC_OFF in f
         else:
-            ok = ok and not (("is", "self._perMessageCompress", ("c", None), False) in f and ("truth", "doNotCompress", None, False) in f)
+            ok = ok and not (PM_ON in f and DNC_OFF in f) and isinstance(n.ast.value, ast.Constant) and repr(n.ast.value.value) in ("False", "0")
     ctx.ob("sendMessage: compressed iff an extension is active and not doNotCompress", ok, "sendCompressed logic changed", sm.loc())
     comp = [(n, c) for n in g.stmt_nodes() for c in node_calls(n) if norm.text(c.func).startswith("self._perMessageCompress.")]
     ctx.ob("sendMessage: compressor used only on the compressed branch",
